@@ -134,12 +134,40 @@ PENDING = "check not built yet in this session (planned in DESIGN.md section 3);
 ALL = [f"C{n:02d}" for n in range(1, 21)]
 
 
+# clauses added after the seeding rounds: id -> (technique addition, level-text addition)
+ADDED = {
+    "C03": (
+        "; path-precise exception-flow search over the call graph for two families with intrinsic origins (import of user paths, decoding of user files); model of PyYAML's SafeConstructor raises read from the installed source",
+        " Also decided: the state that selects the channel (exit_on_error, error handler) is inherited by subcommand parsers; ValueError raised by PyYAML constructors for explicitly tagged scalars is converted; ImportError/AttributeError from importing a user-supplied path and UnicodeDecodeError from reading a user-supplied file cannot reach a parse entry without passing a handler (witness chains reported).",
+    ),
+    "C04": ("; call-graph resolved argument/parameter agreement for the source-selection flags", " Also decided: the flags `env` and `defaults` are never bound to each other's parameter in any resolved call."),
+    "C05": (
+        "; regular-language inclusion JSON numbers <= yaml float/int resolver; normalisation agreement between acceptance and interpretation",
+        " Also decided: every JSON number is a number for the yaml loader; a text accepted under a normalisation (x.lower() in {...}) is interpreted under the same normalisation.",
+    ),
+    "C06": (
+        "; key-prefix separator check; guard-structure checks on required_args registration and on the value-check exemptions of validate",
+        " Also decided: the two permitted skips test key prefixes with the separator; every required_args.add depends on the `required` flag alone; a known key's value check is skipped only for None/lenient and its failure swallowed only for {} on an optional subclass key; a subcommand name outside the choices raises.",
+    ),
+    "C09": ("; alias copy-on-write (must-pass-through a fresh rebinding before in-place writes of locals that alias attributes of long-lived objects)", " Also decided: a local aliasing an attribute of the parser/action is rebound to a copy before it is written in place."),
+    "C10": ("; pop/restore pairing of the __path__ metadata on the CFG of both _check_type siblings", " Also decided: metadata popped before conversion is put back on every normal path on which it was present."),
+    "C12": ("; prefix-derivation check of every configuration key used by subcommand selection", " Also decided: whose signature has_parameter asks (component vs. method) agrees between introduction and removal; get_subcommands/handle_subcommands address every key through `prefix`; signature defaults are never tested by truthiness."),
+    "C14": ("; context-pinning check of the validity test in discard_init_args_on_class_path_change", " Also decided: init_args kept across a class_path change are checked with lenient_check pinned to False, and are discarded when unknown to or rejected by the new class."),
+    "C16": ("; key-helper roles (root/parent/leaf) read from the split_key* helpers", " Also decided: a link source key is matched to the class group named by the key or its immediate parent."),
+    "C18": ("; hidden-write summary of Path.__init__ (mode flags that open the target for writing)", " Also decided: no Path construction inside save enables Path.__init__'s own open-for-write probe (C18.c)."),
+    "C19": ("; resolved-path derivation for every file-system probe", " Also decided: every os.access/isfile/isdir/stat probe of the mode checks looks at the value stored as self._absolute (or a parent derived from it)."),
+    "C20": ("", " Range templates may omit start/step only under control dependence on start == 0 / step == 1."),
+}
+
+
 def main():
     checks = []
     for pid in ALL:
         if pid not in CLAIMED:
             continue
         tech, text, note, ref = CLAIMED[pid]
+        if pid in ADDED:
+            tech, text = tech + ADDED[pid][0], text + ADDED[pid][1]
         checks.append(
             {
                 "property_id": pid,
